@@ -19,14 +19,19 @@ import (
 	"fmt"
 	"io"
 	"math/rand"
+	"net/http"
+	"net/http/httptest"
+	"net/url"
 	"os"
 	"sort"
 	"strings"
 	"time"
 
 	"cuelabs.dev/go/oci/ociregistry"
+	"cuelabs.dev/go/oci/ociregistry/ociclient"
 	"cuelabs.dev/go/oci/ociregistry/ocidebug"
 	"cuelabs.dev/go/oci/ociregistry/ocimem"
+	"cuelabs.dev/go/oci/ociregistry/ociserver"
 	"cuelabs.dev/go/oci/ociregistry/ociunify"
 	"github.com/opencontainers/go-digest"
 
@@ -87,7 +92,9 @@ type fakeRes struct {
 }
 
 type memberSpec struct {
-	Kind  string   `json:"kind"` // mem | debug (ocidebug over ocimem) | fake
+	// mem | debug (ocidebug over ocimem) | fake | remote (ociclient -> HTTP -> ociserver over
+	// ocimem: answers, errors and content streams are what a registry across the network gives)
+	Kind  string   `json:"kind"`
 	Setup []Op     `json:"setup,omitempty"`
 	Fake  *fakeRes `json:"fake,omitempty"`
 }
@@ -185,8 +192,10 @@ type outcome struct {
 	short    string // readable
 	ok       bool
 	panicked bool
-	writer   ociregistry.BlobWriter
-	str      string
+	// a reader was returned without error and its content could not be read to the end
+	unreadable bool
+	writer     ociregistry.BlobWriter
+	str        string
 }
 
 // perform does op on reg as a caller would and renders what the caller sees.
@@ -219,7 +228,14 @@ func perform(ctx context.Context, reg ociregistry.Interface, o Op, ws []ociregis
 		data, rerr := io.ReadAll(rd)
 		cerr := rd.Close()
 		if rerr != nil || cerr != nil {
-			fail(errors.Join(rerr, cerr))
+			// The call said "here is the content" and the content cannot be read to its
+			// end: neither a value nor an error.  Rendered like the other improper answers
+			// (nil reader without error), never as an ordinary error - "the tag fails" and
+			// "the tag resolves to something unreadable" must not look alike.
+			out.term = "Panic"
+			out.short = fmt.Sprintf("reader returned without error but unreadable after %d bytes: %v [%s]",
+				len(data), errors.Join(rerr, cerr), shape(errors.Join(rerr, cerr)))
+			out.unreadable = true
 			return
 		}
 		out.ok = true
@@ -431,8 +447,36 @@ func fakeMember(f *fakeRes) ociregistry.Interface {
 }
 
 type member struct {
-	rec  *recorder
-	base ociregistry.Interface // what snapshots look at (nil for fakes)
+	rec   *recorder
+	base  ociregistry.Interface // what snapshots look at (nil for fakes)
+	close func()                // releases what the member holds (HTTP server, connections)
+}
+
+func (m *member) done() {
+	if m != nil && m.close != nil {
+		m.close()
+	}
+}
+
+// remoteOver: an ociclient talking HTTP to an ociserver over reg.
+func remoteOver(reg ociregistry.Interface) (ociregistry.Interface, func(), error) {
+	srv := httptest.NewServer(ociserver.New(reg, nil))
+	tr := &http.Transport{}
+	stop := func() {
+		tr.CloseIdleConnections()
+		srv.Close()
+	}
+	u, err := url.Parse(srv.URL)
+	if err != nil {
+		stop()
+		return nil, nil, err
+	}
+	c, err := ociclient.New(u.Host, &ociclient.Options{Insecure: true, Transport: tr})
+	if err != nil {
+		stop()
+		return nil, nil, err
+	}
+	return c, stop, nil
 }
 
 func buildMember(spec memberSpec, name, idPrefix string) (*member, error) {
@@ -442,7 +486,7 @@ func buildMember(spec memberSpec, name, idPrefix string) (*member, error) {
 			return nil, errors.New("fake member without script")
 		}
 		return &member{rec: newRecorder(name, fakeMember(spec.Fake), idPrefix)}, nil
-	case "mem", "debug":
+	case "mem", "debug", "remote":
 		reg := ocimem.New()
 		for _, o := range spec.Setup {
 			if out := perform(context.Background(), reg, o, nil, 0); out.panicked {
@@ -450,8 +494,17 @@ func buildMember(spec memberSpec, name, idPrefix string) (*member, error) {
 			}
 		}
 		var inner ociregistry.Interface = reg
-		if spec.Kind == "debug" {
+		switch spec.Kind {
+		case "debug":
 			inner = ocidebug.New(reg, func(string, ...any) {})
+		case "remote":
+			c, stop, err := remoteOver(reg)
+			if err != nil {
+				return nil, err
+			}
+			rec := newRecorder(name, c, idPrefix)
+			rec.live = true
+			return &member{rec: rec, base: reg, close: stop}, nil
 		}
 		return &member{rec: newRecorder(name, inner, idPrefix), base: reg}, nil
 	}
@@ -503,17 +556,22 @@ func runRead(in input) (hx.Case, error) {
 	if err != nil {
 		return hx.Case{}, err
 	}
+	defer m0.done()
 	m1, err := buildMember(in.M1, "m1", "b")
 	if err != nil {
 		return hx.Case{}, err
 	}
+	defer m1.done()
 	o := *in.Op
 	if !isRead(o.M) {
 		return hx.Case{}, fmt.Errorf("not a read: %s", o.M)
 	}
 	ctx := context.Background()
+	memberPanicked := false
 	ask := func(m *member) string {
-		perform(ctx, m.rec, o, nil, 0)
+		if perform(ctx, m.rec, o, nil, 0).panicked {
+			memberPanicked = true
+		}
 		cs := m.rec.take()
 		if len(cs) != 1 {
 			return "Panic"
@@ -521,6 +579,11 @@ func runRead(in input) (hx.Case, error) {
 		return cs[0].Res
 	}
 	a0, a1 := ask(m0), ask(m1)
+	if memberPanicked {
+		// outside the property's assumptions (and it would take the harness down with it
+		// when it happens on one of the unifier's goroutines)
+		return hx.Case{}, fmt.Errorf("a member panics on %s when asked directly", o.M)
+	}
 	pol, polTerm := policyOf(in.Policy)
 	u := ociunify.New(m0.rec, m1.rec, &ociunify.Options{ReadPolicy: pol})
 	b0, b1 := m0.rec.received(), m1.rec.received()
@@ -551,6 +614,9 @@ func runRead(in input) (hx.Case, error) {
 	}
 	if out.panicked {
 		kind = "panic"
+	}
+	if out.unreadable {
+		kind = "unreadable"
 	}
 	return hx.Case{Coq: coq,
 		Desc: map[string]any{"input": in, "observed": map[string]any{"unifier": out.short, "calls_m0": n0, "calls_m1": n1}},
@@ -765,6 +831,8 @@ func (h *hist) step(o Op) outcome {
 		res = "ok"
 	} else if out.panicked {
 		res = "panic"
+	} else if out.unreadable {
+		res = "unreadable"
 	}
 	h.counts["step:"+o.M+":"+res]++
 	if cut0 != "" || cut1 != "" {
@@ -780,6 +848,8 @@ func (h *hist) step(o Op) outcome {
 }
 
 func (h *hist) finish() hx.Case {
+	h.m0.done()
+	h.m1.done()
 	if h.faulted {
 		h.counts["hist-fault-fired"]++
 	}
@@ -1024,6 +1094,51 @@ func randomReadOp(rnd *rand.Rand) Op {
 	}
 	arts := []string{"", "", "application/x-sig"}
 	return Op{M: "Referrers", Repo: repo, Digest: ds[len(blobData)+rnd.Intn(2)*rnd.Intn(4)], Art: arts[rnd.Intn(len(arts))]}
+}
+
+// tagStateCases: see main, section 2b.
+func tagStateCases() []input {
+	ms := manifests()
+	held := func(m manifestDef, tag string) []Op {
+		p := &population{}
+		p.manifest("foo", tag, m)
+		return p.ops
+	}
+	latest0, latest1, other := held(ms[0], "latest"), held(ms[1], "latest"), held(ms[1], "v1")
+	states := []struct {
+		name   string
+		s0, s1 []Op
+	}{
+		{"tag-in-m0-only", latest0, nil}, {"tag-in-m0-only-m1-knows-repo", latest0, other},
+		{"tag-in-m1-only", nil, latest0}, {"tag-in-m1-only-m0-knows-repo", other, latest0},
+		{"tag-agrees", latest0, latest0}, {"tag-conflicts", latest0, latest1}, {"tag-absent", other, other},
+	}
+	ops := []Op{
+		{M: "GetTag", Repo: "foo", Tag: "latest"}, {M: "ResolveTag", Repo: "foo", Tag: "latest"},
+		{M: "GetManifest", Repo: "foo", Digest: dig(ms[0].content)},
+		{M: "GetBlob", Repo: "foo", Digest: dig("a")},
+		{M: "GetBlobRange", Repo: "foo", Digest: dig("a"), O0: 0, O1: 1},
+	}
+	var out []input
+	for _, st := range states {
+		for _, kp := range [][2]string{{"remote", "remote"}, {"mem", "remote"}, {"remote", "mem"}, {"mem", "mem"}} {
+			for _, o := range ops {
+				for _, pol := range []string{"seq", "conc"} {
+					lates := []int{0}
+					if pol == "conc" && isDigestRead(o.M) {
+						lates = []int{1, 2}
+					}
+					for _, late := range lates {
+						op := o
+						op.Late = late
+						out = append(out, input{Kind: "read", Policy: pol, Scenario: st.name,
+							M0: memberSpec{Kind: kp[0], Setup: st.s0}, M1: memberSpec{Kind: kp[1], Setup: st.s1}, Op: &op})
+					}
+				}
+			}
+		}
+	}
+	return out
 }
 
 // ---------------------------------------------------------------- scripted members for reads
@@ -1517,7 +1632,7 @@ func main() {
 			return
 		}
 		if in.Kind == "read" {
-			keep(c, in.Kind, origin, "read:"+in.Op.M, "read-result:"+fmt.Sprint(c.Tags["result"]))
+			keep(c, in.Kind, origin, "read:"+in.Op.M, "read-result:"+fmt.Sprint(c.Tags["result"]), "members:"+in.M0.Kind+"/"+in.M1.Kind)
 		} else {
 			keep(c, in.Kind, origin)
 		}
@@ -1615,13 +1730,18 @@ func main() {
 
 	// 2. real in-memory registries in the member states the property names
 	scenarios := []string{"empty", "equal", "disjoint", "overlap", "overlap", "conflict", "conflict", "oneside"}
-	pairs, perPair := 40, 24
+	pairs, perPair := 48, 24
 	if cfg.Thorough() {
 		pairs, perPair = 400, 40
 	}
+	// ... as in-memory registries, as registries across HTTP, and one of each (the cache in
+	// front of a remote registry): every scenario meets every combination
+	kindPairs := [][2]string{{"mem", "mem"}, {"remote", "remote"}, {"mem", "remote"}, {"remote", "mem"}}
 	for p := 0; p < pairs; p++ {
 		sc := scenarios[p%len(scenarios)]
 		s0, s1 := memberPair(rnd, sc)
+		kp := kindPairs[(p/len(scenarios)+p)%len(kindPairs)]
+		s0.Kind, s1.Kind = kp[0], kp[1]
 		for k := 0; k < perPair; k++ {
 			o := randomReadOp(rnd)
 			for _, pol := range []string{"seq", "conc"} {
@@ -1632,6 +1752,13 @@ func main() {
 				add(input{Kind: "read", Policy: pol, Scenario: sc, M0: s0, M1: s1, Op: &op}, "registries")
 			}
 		}
+	}
+
+	// 2b. the tag states the property names (held by one member only - the other knowing the
+	//     repository or not -, agreeing, conflicting, absent) x member kinds x tag reads and
+	//     the digest reads of the tagged content x policies x arrival orders
+	for _, in := range tagStateCases() {
+		add(in, "tagstates")
 	}
 
 	// 3. write histories over members that start equal
